@@ -147,6 +147,11 @@ def handle (op real : String) : Verdict := Id.run do
   if realWhr.startsWith "1" && tm.nonIdem then
     return { kind := "spec", sig, key := "C06:unsound-term", detail := s!"UPDATE … WHERE <a term holding a now() / uuid() call> was classified idempotent: {op} -> {real}" }
   if verdictOf uw.render != realWhr then return { kind := "diff", sig, key := "verdict-where", detail := s!"verdict {verdictOf uw.render}" }
+  let dw : DeleteW := { ks := ksOpt, table := tbl, rels := [.cmp { text := [107] } Gen.Lex.tkGtEqual tm], tail := [] }
+  let realDel := field "del="
+  if realDel.startsWith "1" && tm.nonIdem then
+    return { kind := "spec", sig, key := "C06:unsound-term", detail := s!"DELETE … WHERE <a term holding a now() / uuid() call> was classified idempotent: {op} -> {real}" }
+  if verdictOf dw.render != realDel then return { kind := "diff", sig, key := "verdict-delete", detail := s!"verdict {verdictOf dw.render}" }
   let child (v : Term) (tail : List Tok) : Insert := { ks := ksOpt, table := tbl, cols := [{ text := [99] }], valuesKw := { text := [86, 65, 76, 85, 69, 83] }, vals := .cons v .nil, tail }
   let batch := renderBatch [(child .int [k Gen.Lex.tkUsing, idt { text := [84, 84, 76] }, k Gen.Lex.tkInteger], true), (child tm [], false)] []
   let realBat := field "bat="
